@@ -60,6 +60,7 @@ func NewMuxer(videoMeta *codec.VideoMeta, audioMeta *codec.AudioMeta, tsframeWri
 // WriteFrame .
 func (muxer *Muxer) WriteFrame(frame *codec.Frame) error {
 	muxer.recvQueue.Push(frame)
+	verifPoint("tsmux.pushed", muxer)
 	return nil
 }
 
